@@ -388,7 +388,20 @@ SlotHeadPair *dohead_destructure(JanetCompiler *c, SlotHeadPair *into, JanetFopt
                 break;
             }
         }
-        if (!found_amp) {
+        /* The shortcut pairs pattern and value positions one to one. It cannot be used if the
+         * right side has more elements than the pattern (they must still be evaluated for their
+         * effects) or contains a splice (positions are only known at run time). */
+        int exact = view_rhs.len <= view_lhs.len;
+        for (int32_t i = 0; exact && i < view_rhs.len; i++) {
+            const Janet *tup;
+            int32_t tlen;
+            if (janet_checktype(view_rhs.items[i], JANET_TUPLE) &&
+                    janet_indexed_view(view_rhs.items[i], &tup, &tlen) && tlen > 0 &&
+                    janet_symeq(tup[0], "splice")) {
+                exact = 0;
+            }
+        }
+        if (!found_amp && exact) {
             for (int32_t i = 0; i < view_lhs.len; i++) {
                 Janet sub_rhs = view_rhs.len <= i ? janet_wrap_nil() : view_rhs.items[i];
                 c->recursion_guard--;
